@@ -318,6 +318,12 @@ func (c *Ctx) mapRangesIn(set map[*ssa.Function]*ssa.Function) []mapRange {
 
 var nondetSources = map[string]string{
 	"time.Now": "clock", "time.Since": "clock", "time.Until": "clock",
+	// ambient, node-local inputs
+	"os.Getenv": "environment", "os.LookupEnv": "environment", "os.Environ": "environment", "os.Hostname": "environment",
+	"os.Getpid": "environment", "os.Getwd": "environment", "os.UserHomeDir": "environment",
+	"runtime.NumCPU": "environment", "runtime.NumGoroutine": "environment", "runtime.GOMAXPROCS": "environment",
+	// unordered views of a map
+	"(reflect.Value).MapKeys": "map-order", "(reflect.Value).MapRange": "map-order",
 }
 
 func isNondetCall(cc *ssa.CallCommon) (string, bool) {
